@@ -89,3 +89,14 @@ Print Assumptions C15_shutdown_iff.
 Print Assumptions C15_survives_iff.
 Print Assumptions C15_double_ctrl_c.
 Print Assumptions C15_double_ctrl_c_opposite_order.
+Check C15_second_signal_during_first :
+  forall (h0 : list op) (sig status f : Z) (ws1 : list op),
+    let s0 := run h0 init in
+    alive s0 -> actions_for sig (reg s0) = [] ->
+    Forall (keeps sig) ws1 ->
+    let s1 := run (OpRegister sig (CondExit status f) :: OpRegister sig (SetBool f) :: ws1) s0 in
+    alive s1 -> flag s1 f = 0 ->
+    let s2 := step (OpDeliver sig) s1 in
+    let s3 := step (OpDeliver sig) s2 in
+    alive s2 /\ halted s3 = Some (Exited (status mod 256) false).
+Print Assumptions C15_second_signal_during_first.
